@@ -171,6 +171,15 @@ S1 = [
     "v = 0\n    with CmSup(), CmPlain():\n        v = {e}\n        boom()\n        v = 'done'\n    use(v)",
     "v = 0\n    with CmPlain() as p, CmPlain(), CmSup() as q:\n        v = {e}\n        boom()\n        v = (p, q)\n    use(v)",
     "v = 0\n    with CmPlain():\n        with CmSup():\n            v = {e}\n            boom()\n            v = 'done'\n        w = v\n    use(v)",
+    # in-place mutation of list / set / dict displays and counters in loops
+    "v = [1]\n    v += [{e}]\n    use(v)",
+    "v = [x, 1]\n    v.pop()\n    w = v[-1]\n    use(v)",
+    "v = {{1, 2}}\n    v.discard(1)\n    v.add({e})\n    use(v)",
+    "v = [1, 'a']\n    v.reverse()\n    w = v[0]\n    use(w)",
+    "v = 0\n    for w in (1, 2, 3):\n        v += 1\n    use(v)",
+    "v = 0\n    w = ''\n    while c():\n        v += 1\n        w = w + 'a'\n    use((v, w))",
+    "d = {{'k': {e}}}\n    d['k'] = 0\n    d.update(j=1)\n    v = (d['k'], d)",
+    "v = [{e}, 0]\n    v[0] = 'z'\n    v.insert(0, None)\n    w = v[0]\n    use(v)",
 ]
 S2 = [
     "w = v\n    use(w)",
